@@ -21,6 +21,17 @@ send_collision_risk_warning_denm; every DENM is attributed to the event of the t
 against THAT event (count, action id, event position, circle centre); outcomes compared with the Lean model of the
 repetition body (FlexModel/Fac/DenmRep.lean, op `reps`); regenerated facts `bodySharedStores` / `bodySelfAttrs` /
 `transmitArgs` (the message object of a repetition is local to it) discharged by `repetition_message_tied`.
+
+Round 5 additions: (a) thread-start latency - `Thread.start()` of the virtual-time scheduler only REGISTERS the event
+thread, the caller returns first; `mutate.window = "start"` lets the caller overwrite the position dictionary of its
+request before the event thread has executed a single statement (seeded change C17-m7); thread scenario
+`request_then_reuse_position_dict` does the same under harness/dsched.py (the schedule decides where the write lands);
+regenerated fact `snapshotSite`, theorems `request_snapshot_tied` / `request_position_fixed_at_request`.  (b) watchdog -
+`threading.Lock` / `RLock` of the module are cooperative stand-ins (`CoopLock`): a thread that finds a lock held parks; a
+thread still parked when nothing is left to run is reported as 'repetition stalled', a thread that does not yield within
+HANG_S real seconds as 'hung' - outcomes of the code under test, judged by the oracle with the scenario as replay (seeded
+change C17-m9: bare acquire()/release() around the hand-over, the lock stays held after ONE failed repetition);
+regenerated fact `bareLockCalls`, theorems `lock_discipline_tied` / `failed_handover_blocks_nobody`.
 """
 from __future__ import annotations
 
@@ -57,7 +68,12 @@ MODULES = ["Props.C17"]
 DRIVERS = ["Denm"]
 TRUSTED = [
     "modelled rather than verified: time.sleep(interval/1000) is taken to last exactly `interval` ms (virtual clock); "
-    "real thread start latency and sleep drift are replaced by the deterministic scheduler of harness/props/c17.py",
+    "real sleep drift is replaced by the deterministic scheduler of harness/props/c17.py; thread start latency is "
+    "modelled as 'the caller returns from request_denm_sending before the event thread executes its first statement' "
+    "(virtual-time scenarios) and as a schedule choice (thread scenarios)",
+    "the cooperative Lock / RLock stand-ins and the watchdog of harness/props/c17.py (a thread parked on a lock when "
+    "nothing is left to run = stalled; no yield within 30 s of real time = hung); a lock not created through the "
+    "module's `threading` name blocks for real and is seen by the 30 s watchdog only",
     "asn1tools UPER DENM codec (the emitted payload is decoded with the repository's own coder)",
     "float glue int((t - ITS_EPOCH + 5) * 1000) of TimeService.timestamp_its and int(lat * 1e7) of the emergency "
     "vehicle service: compared with a tolerance of 1 unit (counted as tolerance_skips)",
@@ -101,29 +117,121 @@ class _Stop(Exception):
     pass
 
 
+class _Kill(BaseException):
+    """raised inside a parked repetition thread the harness gives up on (a thread blocked for ever in `acquire()`);
+    a BaseException so that the `except Exception` of the repetition loop cannot swallow it"""
+
+
+class RepetitionStalled(Exception):
+    """the HARNESS thread (a synchronous caller: send_collision_risk_warning_denm, a direct trigger_denm_messages)
+    blocks in `acquire()` of a lock that nothing can release any more"""
+
+
+HANG_S = 30.0          # real seconds a repetition thread may run without yielding before it is judged `hung`
+_HUNG = {"n": 0}       # hung threads seen in this process (each costs HANG_S: the generators stop after the second)
+
+
 class _Task:
     def __init__(self, sched, tag, target, args):
         self.sched, self.tag, self.target, self.args = sched, tag, target, args
         self.sem = threading.Semaphore(0)
         self.ending = None
         self.sleeps = 0
+        self.blocked_on = None      # CoopLock this thread is parked on
+        self.killed = False
+        self.abandoned = False      # did not yield within HANG_S: the scheduler no longer waits for it
         self.real = threading.Thread(target=self._body, daemon=True)
 
     def _body(self):
         self.sem.acquire()
         try:
+            if self.killed:
+                raise _Kill()
             self.target(*self.args)
-            self.ending = "fin"
+            self.ending = self.ending or "fin"
         except _Stop:
             self.ending = "stopped"
+        except _Kill:
+            pass                     # `ending` was set by the scheduler (stalled / hung)
         except Exception as e:  # noqa: BLE001 - recorded, judged by the oracle
             self.ending = type(e).__name__
         finally:
-            self.sched.ctrl.release()
+            if not self.abandoned:
+                self.sched.ctrl.release()
+
+
+class CoopLock:
+    """threading.Lock / RLock as seen by the transmission-management module under the cooperative scheduler (round 5).
+    A repetition thread that finds the lock held PARKS (the scheduler goes on with the other threads and the clock);
+    `release()` hands the lock to the longest waiting thread, which becomes runnable at the current virtual time.
+    A thread still parked when nothing is left to run can never be resumed: `Sched.finish` reports it as
+    'stalled' (watchdog) - the harness never blocks on a real lock."""
+
+    def __init__(self, sched, reentrant=False):
+        self.sched, self.reentrant = sched, reentrant
+        self.owner, self.depth, self.waiters = None, 0, []
+
+    def _me(self):
+        return self.sched.by_ident.get(threading.get_ident()) or "harness"
+
+    def acquire(self, blocking=True, timeout=-1):
+        me = self._me()
+        if self.owner is None or (self.reentrant and self.owner is me):
+            self.owner, self.depth = me, self.depth + 1
+            return True
+        if not blocking:
+            return False
+        if timeout is not None and timeout >= 0:     # acquire(timeout=..): wait (virtual time), then one more try
+            self.sched.sleep(timeout)
+            if self.owner is None:
+                self.owner, self.depth = me, 1
+                return True
+            return False
+        if me == "harness":
+            # a synchronous caller blocks: the other threads go on until the lock is free - or nothing is left to run
+            while self.owner is not None:
+                if not self.sched.heap:
+                    raise RepetitionStalled("blocked for ever in acquire(): the lock is held by "
+                                            + self.sched.who(self.owner) + " and nothing is left that could release it")
+                self.sched.step()
+            self.owner, self.depth = me, 1
+            return True
+        self.waiters.append(me)
+        me.blocked_on = self
+        self.sched.ctrl.release()
+        me.sem.acquire()
+        if me.killed or me.abandoned:
+            raise _Kill()
+        return True                                   # `release` made this thread the owner
+
+    def release(self):
+        if self.owner is None:
+            raise RuntimeError("release unlocked lock")
+        self.depth -= 1
+        if self.depth > 0:
+            return
+        self.owner = None
+        if self.waiters:
+            w = self.waiters.pop(0)
+            w.blocked_on, self.owner, self.depth = None, w, 1
+            heapq.heappush(self.sched.heap, (self.sched.clock.ms, self.sched.order, w))
+            self.sched.order += 1
+
+    def locked(self):
+        return self.owner is not None
+
+    __enter__ = acquire
+
+    def __exit__(self, *a):
+        self.release()
 
 
 class Sched:
-    """deterministic cooperative scheduler: exactly one repetition thread (or the harness) runs at a time"""
+    """deterministic cooperative scheduler: exactly one repetition thread (or the harness) runs at a time.
+    Round 5: `Thread.start()` only REGISTERS the thread (it is runnable at the current virtual time and runs when the
+    harness next lets the scheduler run: thread-start latency - the caller goes on first); locks are `CoopLock`s;
+    watchdog: a thread parked on a lock when nothing is left to run is `stalled`, a thread that does not yield within
+    HANG_S real seconds is `hung` - both are OUTCOMES of the code under test, judged by the oracle, not harness errors."""
 
     def __init__(self, clock, max_sleeps=None):
         self.clock = clock
@@ -136,19 +244,28 @@ class Sched:
         self.max_sleeps = max_sleeps
         self.main_sleeps = 0
 
-    def spawn(self, target, args):
+    def spawn(self, target, args, defer=False):
         th = _Task(self, self.next_tag, target, args)
         self.tasks.append(th)
         th.real.start()
         self.by_ident[th.real.ident] = th
-        self._resume(th)
+        if defer:
+            heapq.heappush(self.heap, (self.clock.ms, self.order, th))
+            self.order += 1
+        else:
+            self._resume(th)
         return th
+
+    def who(self, owner):
+        return "the harness thread" if owner == "harness" else f"the thread of event {owner.tag}"
 
     def _resume(self, th):
         prev, self.cur = self.cur, th.tag
         th.sem.release()
-        if not self.ctrl.acquire(timeout=60):
-            raise Infra("scheduler: repetition thread did not yield within 60 s")
+        if not self.ctrl.acquire(timeout=HANG_S if _HUNG["n"] == 0 else HANG_S / 6):
+            # watchdog: the thread neither finished nor reached a sleep / a lock of the scheduler
+            th.abandoned, th.ending = True, f"hung (no progress within {HANG_S:.0f} s of real time)"
+            _HUNG["n"] += 1
         self.cur = prev
 
     def sleep(self, seconds):
@@ -162,6 +279,8 @@ class Sched:
                 raise _Stop()
             self.clock.ms += ms
             return
+        if th.abandoned:
+            raise _Kill()
         th.sleeps += 1
         if self.max_sleeps is not None and th.sleeps > self.max_sleeps:
             raise _Stop()
@@ -169,14 +288,32 @@ class Sched:
         self.order += 1
         self.ctrl.release()
         th.sem.acquire()
+        if th.killed or th.abandoned:
+            raise _Kill()
+
+    def step(self):
+        wake, _, th = heapq.heappop(self.heap)
+        self.clock.ms = max(self.clock.ms, wake)
+        self._resume(th)
 
     def run_until(self, t_ms=None):
         while self.heap and (t_ms is None or self.heap[0][0] <= t_ms):
-            wake, _, th = heapq.heappop(self.heap)
-            self.clock.ms = max(self.clock.ms, wake)
-            self._resume(th)
+            self.step()
         if t_ms is not None:
             self.clock.ms = max(self.clock.ms, t_ms)
+
+    def finish(self):
+        """run everything that can run; then the watchdog: a thread still parked on a lock can never be resumed"""
+        self.run_until(None)
+        for th in self.tasks:
+            if th.blocked_on is not None and th.ending is None:
+                lk = th.blocked_on
+                th.ending = ("stalled (blocked for ever in acquire(): the lock is held by " + self.who(lk.owner)
+                             + " and nothing is left that could release it)")
+                if th in lk.waiters:
+                    lk.waiters.remove(th)
+                th.blocked_on, th.killed = None, True
+                self._resume(th)       # unwinds with _Kill and ends
 
 
 class InjectedTransportError(OSError):
@@ -252,7 +389,8 @@ class _Patched:
                 self.task = None
 
             def start(self):
-                self.task = sched.spawn(self.target, self.args)
+                # registered, not run: the caller returns from start() first (thread-start latency)
+                self.task = sched.spawn(self.target, self.args, defer=True)
 
             def join(self, timeout=None):
                 pass
@@ -262,6 +400,8 @@ class _Patched:
 
         fth = types.SimpleNamespace(**{k: getattr(self.o_thr, k) for k in dir(self.o_thr) if not k.startswith("__")})
         fth.Thread = FakeThread
+        fth.Lock = lambda: CoopLock(sched)
+        fth.RLock = lambda: CoopLock(sched, reentrant=True)
         tm_mod.time, tm_mod.threading = ft, fth
         # compiling the DENM ASN.1 takes seconds: every DEN service of the run shares one (stateless) coder
         self.o_coder, den_mod.DENMCoder = den_mod.DENMCoder, (lambda: _COD)
@@ -282,7 +422,9 @@ def event_position(lat, lon, alt=800001):
 def run_scenario(sc, max_sleeps=None):
     """run one scenario on the real code.  Returns per-event observation lists + endings.
     Optional per-event keys: `faults` {"k": "t"|"e"} (repetition k: transport raises / coder raises),
-    `mutate` {"at": ms after the request, "lat", "lon"} (the CALLER overwrites the position dictionary it passed)."""
+    `mutate` {"at": ms after the request, "lat", "lon"} (the CALLER overwrites the position dictionary it passed;
+    with `"window": "start"` it does so right after `request_denm_sending` has returned and BEFORE the event thread has
+    executed its first statement - the thread-start latency window; otherwise after the repetitions due at `at`)."""
     evs = sc["events"]
     with rs.VClock(T0) as clock:
         sched = Sched(clock, max_sleeps)
@@ -298,7 +440,8 @@ def run_scenario(sc, max_sleeps=None):
             held = {}
             errors = {}
             actions = [(evs[j]["start"], 0, j, "start") for j in range(len(evs))]
-            actions += [(evs[j]["start"] + evs[j]["mutate"]["at"], 1, j, "mutate") for j in range(len(evs)) if evs[j].get("mutate")]
+            actions += [(evs[j]["start"] + evs[j]["mutate"]["at"], 1, j, "mutate") for j in range(len(evs))
+                        if evs[j].get("mutate") and evs[j]["mutate"].get("window") != "start"]
             actions.sort(key=lambda a: (a[0], a[1], a[2]))
 
             def start_event(j):
@@ -319,6 +462,10 @@ def run_scenario(sc, max_sleeps=None):
                             sched.cur = None
                     else:
                         tmm.request_denm_sending(req)
+                        if (e.get("mutate") or {}).get("window") == "start":
+                            # the application re-uses its dictionary as soon as the request call has returned; the
+                            # event thread is registered but has not executed a single statement yet
+                            held[j]["latitude"], held[j]["longitude"] = e["mutate"]["lat"], e["mutate"]["lon"]
                 elif e["kind"] == "eva":
                     if state["eva"] is None:
                         state["eva"] = EmergencyVehicleApproachingService(den, duration=e["T"])
@@ -350,9 +497,12 @@ def run_scenario(sc, max_sleeps=None):
                     errors[j] = "stopped"
                 except Infra:
                     raise
+                except RepetitionStalled as ex:
+                    errors[j] = f"stalled ({ex})"
                 except Exception as ex:  # noqa: BLE001
                     errors[j] = type(ex).__name__
-            sched.run_until(None)
+                sched.run_until(clock.ms)      # the threads started by this action run up to their first sleep
+            sched.finish()
     obs = [[] for _ in evs]
     for (t, tag, rq, failed) in btp.log:
         d = _COD.decode(rq.data)
@@ -372,6 +522,10 @@ def run_scenario(sc, max_sleeps=None):
         endings[th.tag] = th.ending
     endings.update(errors)
     return obs, endings
+
+
+def is_stall(ending):
+    return isinstance(ending, str) and (ending.startswith("stalled") or ending.startswith("hung"))
 
 
 # ---------------------------------------------------------------------------------------------- oracle
@@ -451,6 +605,11 @@ def tx_variants():
             {"kind": "direct", "i": 100, "T": 200, "lat": 3000, "lon": 4000, "start": 1000, "mutate": {"at": 50, "lat": 7000, "lon": 8000}}]})
         _TX_VARIANTS = {"loop": "skip" if len(obs[0]) == 2 else "abort",
                         "pos": "copy" if len(obs[1]) == 2 and obs[1][1]["pos"] == [3000, 4000] else "ref"}
+        # round 5: WHERE is the snapshot taken - when the request is accepted (caller's thread) or later (event thread)?
+        obs, _ = run_scenario({"station": 1, "seq0": 0, "events": [
+            {"kind": "direct", "i": 100, "T": 100, "lat": 3000, "lon": 4000, "start": 0,
+             "mutate": {"at": 0, "window": "start", "lat": 7000, "lon": 8000}}]})
+        _TX_VARIANTS["snap"] = "request" if len(obs[0]) == 1 and obs[0][0]["pos"] == [3000, 4000] else "late"
     return _TX_VARIANTS
 
 
@@ -465,6 +624,12 @@ def model_lines(sc):
         elif e.get("faults"):
             toks = " ".join(f"{v}{k}" for k, v in sorted(e["faults"].items(), key=lambda kv: int(kv[0])))
             lines.append(f"eventf {tx_variants()['loop']} {T0 + e['start']} {ITS_SUB} {e['i']} {e['T']} {e['lat']} {e['lon']} {toks}")
+        elif e.get("mutate") and e["kind"] == "direct" and e["mutate"].get("window") == "start":
+            # the model follows the tree under test (the oracle does not): snapshot at request time -> the request's
+            # position; snapshot / read later -> the position the caller wrote before the event thread ran
+            mu = e["mutate"]
+            la, lo = (e["lat"], e["lon"]) if tx_variants()["snap"] == "request" else (mu["lat"], mu["lon"])
+            lines.append(f"event {T0 + e['start']} {ITS_SUB} {e['i']} {e['T']} {la} {lo}")
         elif e.get("mutate") and e["kind"] == "direct" and tx_variants()["pos"] == "ref":
             mu = e["mutate"]
             lines.append(f"eventref {T0 + e['start']} {ITS_SUB} {e['i']} {e['T']} {e['lat']} {e['lon']} "
@@ -500,7 +665,7 @@ def compare_model(ctx, sc, obs, endings, out, order):
         log = obs[j]
         if ending == "nonterm":
             continue   # compared by check_degenerate (prefix of an infinite stream)
-        if e.get("faults") and e.get("mutate") and tx_variants() != {"loop": "skip", "pos": "copy"}:
+        if e.get("faults") and e.get("mutate") and (tx_variants()["loop"], tx_variants()["pos"]) != ("skip", "copy"):
             ctx.cover("model_skips_faults_and_mutation_on_unrepaired_tree")   # no combined OLD variant in the model
             continue
         ok = real_end == want_end and len(msgs) == len(log)
@@ -529,14 +694,24 @@ def strip(sc):
 
 def check_scenarios(ctx, scs):
     lines_all, metas, results = [], [], []
+    done = []
     for sc in scs:
+        if _HUNG["n"] >= 2:
+            ctx.note(f"{len(scs) - len(done)} scenarios not run: two repetition threads already hung ({HANG_S:.0f} s each)")
+            break
         obs, endings = run_scenario(sc)
+        done.append(sc)
         results.append((obs, endings))
         ctx.evals(sum(len(o) for o in obs) + 1)
         # oracle on the real trace
         for j, e in enumerate(sc["events"]):
             real_end = endings.get(j, "fin")
-            if real_end != "fin":
+            if is_stall(real_end):
+                # watchdog of the scheduler: the thread of this event can never be resumed - no further DENM of the event
+                ctx.violation(f"repetition stalled: event {j} ({e['kind']}, i={e['i']} ms, T={e['T']} ms, start {e['start']}, "
+                              f"faults {e.get('faults') or {}}) handed over {len(obs[j])} DENM(s), then {real_end}", strip(sc))
+                ctx.cover("watchdog_repetition_stalled")
+            elif real_end != "fin":
                 ctx.violation(f"event {j} ({e['kind']}, i={e['i']}, T={e['T']}) ended with {real_end}", strip(sc))
             bad, skips = oracle_event(e, obs[j], sc["station"])
             if skips:
@@ -548,7 +723,8 @@ def check_scenarios(ctx, scs):
             for v in (e.get("faults") or {}).values():
                 ctx.cover("fault_injected_transport" if v == "t" else "fault_injected_encode")
             if e.get("mutate"):
-                ctx.cover("caller_mutates_position_dict")
+                ctx.cover("caller_mutates_position_dict_before_thread_runs" if e["mutate"].get("window") == "start"
+                          else "caller_mutates_position_dict")
             ctx.cover("T_zero" if e["T"] == 0 else ("T_multiple_of_i" if e["T"] % e["i"] == 0 else "T_not_multiple_of_i"))
             ctx.nontrivial(("ev", e["kind"], e["i"], e["T"], len(obs[j]), tuple(sorted((e.get("faults") or {}).items())), bool(e.get("mutate"))))
         bad = oracle_scenario(sc, obs)
@@ -560,9 +736,11 @@ def check_scenarios(ctx, scs):
         ls, order = model_lines(sc)
         metas.append((len(lines_all), len(ls), order))
         lines_all += ls
+    scs = done
     v = tx_variants()
     ctx.cover(f"variant_loop_{v['loop']}")
     ctx.cover(f"variant_position_{v['pos']}")
+    ctx.cover(f"variant_snapshot_{v['snap']}")
     if ctx.model_ok and lines_all:
         out = ctx.model("Denm", lines_all)
         for sc, (obs, endings), (a, n, order) in zip(scs, results, metas):
@@ -608,10 +786,14 @@ def gen_event(rng, horizon, kinds):
         # failure injection below the service: the transport raises / the coder raises at some repetitions
         ks = {rng.choice([0, 1, n - 1, n // 2, rng.randrange(n)]) for _ in range(rng.choice([1, 1, 2, 3]))}
         ev["faults"] = {str(k): rng.choice(["t", "t", "e"]) for k in sorted(ks) if 0 <= k < n}
-    if kind == "direct" and n >= 2 and rng.random() < 0.15:
-        # the caller overwrites the position dictionary it handed over while the event still repeats
-        ev["mutate"] = {"at": rng.choice([0, 1, i // 2, i - 1, i, i + 1, (n - 1) * i - 1, rng.randrange(0, (n - 1) * i)]),
-                        "lat": -lat // 2 + 12345, "lon": -lon // 2 - 54321}
+    if kind == "direct" and n >= 1 and rng.random() < 0.2:
+        # the caller overwrites the position dictionary it handed over: while the event still repeats, or (round 5)
+        # right after request_denm_sending returned - before the event thread has executed a single statement
+        if n < 2 or rng.random() < 0.35:
+            ev["mutate"] = {"at": 0, "window": "start"}
+        else:
+            ev["mutate"] = {"at": rng.choice([0, 1, i // 2, i - 1, i, i + 1, (n - 1) * i - 1, rng.randrange(0, (n - 1) * i)])}
+        ev["mutate"].update(lat=-lat // 2 + 12345, lon=-lon // 2 - 54321)
         if abs(ev["mutate"]["lat"] - lat) < 10 and abs(ev["mutate"]["lon"] - lon) < 10:
             ev["mutate"]["lat"] = lat - 100000 if lat > 0 else lat + 100000
     return ev
@@ -661,6 +843,21 @@ FIXED_SCENARIOS = [
     {"station": 13, "seq0": 0, "events": [
         {"kind": "direct", "i": 1000, "T": 4000, "lat": 415000000, "lon": 21000000, "start": 0,
          "mutate": {"at": 1500, "lat": -337000000, "lon": -703000000}}]},
+    # round 5: ... and right after request_denm_sending has returned, before the event thread has run at all (thread
+    # start latency): the event was requested at the first position - every DENM, the first included, goes there;
+    # a second event requested from the same application with the re-used dictionary overlaps
+    {"station": 14, "seq0": 65535, "events": [
+        {"kind": "direct", "i": 100, "T": 450, "lat": 413851000, "lon": 21734000, "start": 0,
+         "mutate": {"at": 0, "window": "start", "lat": -338688000, "lon": -584173000}},
+        {"kind": "direct", "i": 250, "T": 250, "lat": -338688000, "lon": -584173000, "start": 100,
+         "mutate": {"at": 0, "window": "start", "lat": 1, "lon": -1}}]},
+    # round 5: a hand-over / an encode fails once while other events and a one-shot warning are running or follow: the
+    # failure is confined to that repetition (nothing may stay locked, flagged or half-updated behind it)
+    {"station": 15, "seq0": 7, "events": [
+        {"kind": "direct", "i": 100, "T": 1000, "lat": 415000000, "lon": 21000000, "start": 0, "faults": {"2": "t"}},
+        {"kind": "direct", "i": 200, "T": 600, "lat": 415100000, "lon": 21100000, "start": 250},
+        {"kind": "eva", "i": 500, "T": 1000, "lat": 414000000, "lon": 20000000, "start": 300, "faults": {"0": "e"}},
+        {"kind": "crw", "i": 100, "T": 0, "lat": -337000000, "lon": -703000000, "start": 1600}]},
 ]
 
 
@@ -1034,6 +1231,14 @@ def body_codes():
     return [getattr(cls, n).__code__ for n in names if hasattr(getattr(cls, n, None), "__code__")]
 
 
+class _AllocDead(Exception):
+    """a thread scenario timed out (a thread blocked for real, outside the scheduler's lock stand-ins): threads of that
+    run may still be alive inside traced code - no further thread scenario is run in this process"""
+
+
+_ALLOC_DEAD = [False]
+
+
 class AllocRun:
     """several application threads originate events of ONE station at the same time, on the real
     DENMTransmissionManagement under harness/dsched.py: pre-emption before every attribute access / call inside
@@ -1042,12 +1247,15 @@ class AllocRun:
     BODY (`trigger_denm_messages`, `transmit_denm`, `send_collision_risk_warning_denm`: build/fill -> encode -> GBC
     request), so that the repetitions of two overlapping events interleave at every point.
     ops: ["rep", n] trigger_denm_messages on the calling thread (n repetitions), ["req", n] request_denm_sending
-    (starts its own repetition thread), ["crw"] send_collision_risk_warning_denm.
+    (starts its own repetition thread), ["reqm", n] the same and the caller overwrites the position dictionary of the
+    request right after the call has returned (round 5), ["crw"] send_collision_risk_warning_denm.
     Every DENM handed to the transport layer is attributed to the event of the THREAD that hands it over (the
     application thread's current op, inherited by the repetition thread it starts) - never by its content - and is
     judged against THAT event: its action id, its event position, its circle centre."""
 
     def __init__(self, sc, policy, max_steps=20000):
+        if _ALLOC_DEAD[0]:
+            raise _AllocDead()
         self.sc = sc
         log = self.log = []
         event_of = {}
@@ -1101,13 +1309,19 @@ class AllocRun:
                                                  relevance_traffic_direction="upstreamTraffic",
                                                  rhs_cause_code="emergencyVehicleApproaching95", rhs_subcause_code=1,
                                                  rhs_event_speed=30, rhs_vehicle_type=0)
-                                calls.append((idx, tmm.trigger_denm_messages if op[0] == "rep" else tmm.request_denm_sending, req))
+                                calls.append((idx, tmm.trigger_denm_messages if op[0] == "rep" else tmm.request_denm_sending, req,
+                                              op[0] == "reqm"))
                             idx += 1
 
                         def body(calls=calls):
-                            for j, fn, req in calls:
+                            for j, fn, req, *reuse in calls:
                                 event_of[s.me().tid] = j
                                 fn(req)
+                                if reuse and reuse[0]:
+                                    # round 5: the application re-uses the position dictionary of its request as soon as
+                                    # request_denm_sending has returned; WHEN the event thread runs relative to this
+                                    # write is the schedule's choice (thread start is a yield point)
+                                    req.event_position["latitude"], req.event_position["longitude"] = -_alloc_lat(j) - 77, -_alloc_lon(j) + 77
                             event_of[s.me().tid] = None
                         s.spawn(body, name=f"T{ti}")
                     self.n_events = idx
@@ -1117,6 +1331,8 @@ class AllocRun:
             finally:
                 tm_mod.time, den_mod.DENMCoder = o_time, o_coder
         self.s = s
+        if s.abort_reason == "timeout":
+            _ALLOC_DEAD[0] = True
         self.steps = s.steps
         self.choices = [c[0] for c in s.steps]
         self.excs = sorted((t.name, type(t.exc).__name__) for t in s.threads if t.exc is not None)
@@ -1185,6 +1401,9 @@ ALLOC_SCENARIOS = [
     {"name": "overlap_request_vs_crw", "body": True, "threads": [[["req", 2]], [["crw"]]]},
     {"name": "overlap_three_kinds", "body": True, "threads": [[["rep", 1]], [["req", 2]], [["crw"]]]},
     {"name": "overlap_warnings", "body": True, "threads": [[["crw"], ["crw"]], [["crw"]]]},
+    # round 5: the caller re-uses the position dictionary of its request after request_denm_sending has returned; the
+    # event thread may run its first statement before or after that write (and anywhere in between)
+    {"name": "request_then_reuse_position_dict", "body": True, "threads": [[["reqm", 2]], [["req", 1]]]},
 ]
 
 
@@ -1210,7 +1429,7 @@ def explore_alloc(ctx, sc, bound, cap, n_pct, observed, order="any"):
         ctx.nontrivial((sc["name"], out))
         if bad:
             state["found"] += 1
-            if state["found"] == 1:
+            if state["found"] == 1 and not _ALLOC_DEAD[0]:
                 again = AllocRun(sc, dsched.Replay(run.choices))
                 if again.outcome() != out:
                     ctx.note(f"{sc['name']}: schedule replay diverged ({again.outcome()} vs {out})")
@@ -1290,6 +1509,15 @@ def check_rep_model(ctx, observed):
 
 def check_alloc(ctx, search=False):
     observed = {}
+    try:
+        _check_alloc(ctx, search, observed)
+    except _AllocDead:
+        ctx.note("thread scenarios stopped: a run timed out with a thread blocked outside the scheduler (reported as "
+                 "`run aborted: timeout`); the remaining scenarios were not run")
+    check_alloc_model(ctx, observed)
+
+
+def _check_alloc(ctx, search, observed):
     scs = alloc_scenarios(ctx)
     for sc in scs:
         big = len(sc["threads"]) > 2 or sum(len(t) for t in sc["threads"]) > 2
@@ -1305,7 +1533,6 @@ def check_alloc(ctx, search=False):
             explore_alloc(ctx, sc, 2, ctx.scale(600, 3000), ctx.scale(60, 400), observed)
         else:
             explore_alloc(ctx, sc, 2 if not big else 1, ctx.scale(30 if big else 60, 1500), ctx.scale(4, 200), observed)
-    check_alloc_model(ctx, observed)
 
 
 # ---------------------------------------------------------------------------------------------- entry points
@@ -1332,7 +1559,7 @@ def run(ctx):
         check_rx(ctx, rx_cases(ctx.rng, ctx.scale(2500, 60000)))
         ctx.cover("rx_mgmt_field_subsets_enumerated", len(RX_SUBSETS))
         for c in corp:
-            if c.get("kind") == "alloc":
+            if c.get("kind") == "alloc" and not _ALLOC_DEAD[0]:
                 r = AllocRun(c["scenario"], dsched.Replay(c.get("schedule", [])))
                 ctx.evals()
                 for b in r.judge()[:1]:
@@ -1362,7 +1589,9 @@ def replay(ctx, obj):
         for j, e in enumerate(case["events"]):
             if e["i"] <= 0:
                 continue
-            if endings.get(j, "fin") != "fin":
+            if is_stall(endings.get(j)):
+                bad.append(f"repetition stalled: event {j} handed over {len(obs[j])} DENM(s), then {endings.get(j)}")
+            elif endings.get(j, "fin") != "fin":
                 bad.append(f"event {j} ended with {endings.get(j)}")
             b, _ = oracle_event(e, obs[j], case["station"])
             bad += [f"event {j}: {x}" for x in b]
